@@ -531,8 +531,14 @@ func (in *Interp) binop(op token.Token, xt types.Type, x, y Value, yt types.Type
 		case token.SUB:
 			return ts.FSub(a, b)
 		case token.MUL:
+			if in.p.absFP && !a.IsConst() && !b.IsConst() && a.sort == SF64 && b.sort == SF64 {
+				return in.absMulDiv(true, a, b)
+			}
 			return ts.FMul(a, b)
 		case token.QUO:
+			if in.p.absFP && !a.IsConst() && !b.IsConst() && a.sort == SF64 && b.sort == SF64 {
+				return in.absMulDiv(false, a, b)
+			}
 			return ts.FDiv(a, b)
 		case token.LSS:
 			return ts.FLt(a, b)
